@@ -71,6 +71,16 @@ extern "C" void h_main() {
             check_eq(again.imag(), ref.imag(), "terms kept: the component evaluates on demand to the same value (imaginary part)");
         }
     }
+    // user-set tolerances of a component are handed to every part it creates (TwoParticleGF.h documents them as the knobs of the parts)
+    {
+        TwoParticleGF Z(*m.S, *m.H, Ops.getAnnihilationOperator(i1), Ops.getAnnihilationOperator(i2), Ops.getCreationOperator(i3), Ops.getCreationOperator(i4), rho);
+        Z.ReduceResonanceTolerance = 3e-7; Z.CoefficientTolerance = 5e-15; Z.MultiTermCoefficientTolerance = 7e-6;
+        Z.prepare();
+        for (size_t p = 0; p < Z.parts.size(); ++p)
+            check(Z.parts[p]->ReduceResonanceTolerance == 3e-7 && Z.parts[p]->CoefficientTolerance == 5e-15 && Z.parts[p]->MultiTermCoefficientTolerance == 7e-6,
+                  "every part carries the resonance / coefficient / multi-term tolerances of its component");
+        if (Z.parts.size()) reach("tolerances_checked");
+    }
     if (clear)
         for (size_t p = 0; p < X.parts.size(); ++p)
             check(X.parts[p]->getNumNonResonantTerms() == 0 && X.parts[p]->getNumResonantTerms() == 0, "terms discarded: no part keeps a term");
